@@ -52,4 +52,19 @@ theorem C05_non_existence_unsat {L : LogicData} {M : Struct} (hM : M.Interp L) (
     (e : Env M.D) (σ : Nat → M.W) : ¬ SatB L M e σ b :=
   nonExist_unsat hM hi hc hd hmem e σ
 
+/-- non-vacuity: a two-valued mini-logic whose closure table closes the pair {s, ¬s} and whose read table reads T off {s}:
+    the Boolean side conditions hold, and the closing / open rows are what `C05_closure_iff` says -/
+def miniT : Tables :=
+  { vals := [.F, .T], des := [.T], unassigned := .F,
+    t1 := [((.neg, .F), .T), ((.neg, .T), .F), ((.asrt, .F), .F), ((.asrt, .T), .T)],
+    t2 := [], qf := [], mf := [] }
+def miniC : LogicData :=
+  { (default : LogicData) with
+    tables := miniT,
+    closure := [([], false), ([⟨false, none⟩], false), ([⟨true, none⟩], false), ([⟨false, none⟩, ⟨true, none⟩], true)],
+    readTable := [([⟨false, none⟩], .T), ([⟨true, none⟩], .F)] }
+
+example : miniC.badClosure = [] ∧ miniC.badRead = [] ∧
+    miniC.litsSatisfiable [⟨false, none⟩, ⟨true, none⟩] = false ∧ miniC.litsSatisfiable [⟨false, none⟩] = true := by decide
+
 end Ptx.Props.C05
